@@ -2458,3 +2458,54 @@ def signature_identity_ignores_parameter_names(ctx):
         excluded,
         f"`{fld}` is compared: a method that re-defines an existing signature under another parameter name (`conv(self, x: int)` / `conv(self, number: int)`) no longer replaces the earlier one - both stay registered at the same rank and the call is ambiguous",
     )
+
+
+# ---------------------------------------------------------------------------------------- every build analyses afresh
+def analysis_is_made_anew(ctx):
+    """The method that analyses the signatures creates a new analyser and feeds it every definition on every path:
+    the build calls it each time, and an analysis kept from an earlier method set gives the entry point the old
+    parameter list and the old choice of key functions."""
+    repo = ctx.repo
+    oc = A.function_class(repo)
+    an = A.argument_analyzer(repo)
+    makers = []
+    for m in oc.methods.values():
+        if m.name == "__init__":
+            continue
+        rv = recv_name(m)
+        for st in all_stmts(m.node):
+            if isinstance(st, ast.Assign) and isinstance(st.value, ast.Call) and call_name(st.value) == an.name and any(is_self_attr(t, selfname=rv) for t in st.targets):
+                makers.append((m, st))
+    ctx.require(len(makers) == 1, "the method that creates the signature analyser was not found")
+    m, st = makers[0]
+    ctx.touch(m)
+    cfg = cfg_of(ctx, m)
+    node = cfg.node_of(st)
+    always = cfg.must_reach(cfg.entry, [node])
+    early = None
+    if not always:
+        for r in all_stmts(m.node):
+            if isinstance(r, ast.Return) and cfg.node_of(r) in cfg.reachable(cfg.entry, avoiding=[node]):
+                early = r
+                break
+    ctx.ob(
+        f"{m.key}:analyses-afresh",
+        m.loc(early) if early is not None else m.loc(st),
+        f"every call of {m.name}() creates a new analyser (`{short(st, 50)}`) before it returns",
+        always,
+        f"`{short(early, 50) if early is not None else 'a path'}` returns without analysing: a rebuild after a registration keeps the analysis of the old method set - the regenerated entry point has the old parameter list (a call the new method accepts is rejected) and the old key functions (a class passed for a new type[...] parameter is keyed as plain type)",
+    )
+    # ... and the build calls it
+    b = A.build_method(repo)
+    brv = recv_name(b)
+    calls = [s for s in all_stmts(b.node) if any(is_self_attr(c.func, m.name, selfname=brv) for c in stmt_calls(s))]
+    bcfg = cfg_of(ctx, b)
+    ok = bool(calls) and bcfg.must_reach(bcfg.entry, [bcfg.node_of(s) for s in calls])
+    ctx.touch(b)
+    ctx.ob(f"{b.key}:analyses-on-every-build", b.loc(calls[0]) if calls else b.loc(), f"every build runs {m.name}()", ok, "a build path skips the signature analysis: the entry point is generated from an analysis of another method set")
+
+
+def rewriter_enters_the_method(ctx):
+    from .rewriter import law_own_definition_is_entered
+
+    law_own_definition_is_entered(ctx)
